@@ -17,25 +17,22 @@ Variable C : Crypto.
 Variable suite_table : list (Z * String.string).
 Variable suite_parts : parts.
 Variable keylog : list secret.
-Variable exp_meta : bool.
 Variable sip : bytes.
 Variable sport : Z.
 
-Notation feedp := (feed_packet C suite_table suite_parts keylog exp_meta sip sport).
-Notation gtr := (get_tls_records C suite_table suite_parts keylog exp_meta sip sport).
+Notation feedp := (feed_packet C suite_table suite_parts keylog sip sport).
+Notation gtr := (get_tls_records C suite_table suite_parts keylog sip sport).
 
-Lemma feed_packet_traffic s p s' : feedp s p = Ok s' -> prefix (ts_traffic (rs_core s)) (ts_traffic (rs_core s')).
+Lemma feed_packet_traffic s p s' : feedp s p = Ok s' -> prefix (rs_traffic s) (rs_traffic s').
 Proof.
   unfold feed_packet. destruct (from_server_id sip sport p).
-  - destruct (extract _) as [[buf recs]|]; [|discriminate]. cbn [bind fst snd].
-    destruct (handle_records _ _ _ _ _ _ _ _) as [c|] eqn:E; [|discriminate]. cbn [bind]. intros H; injection H as <-. cbn [rs_core].
-    apply grows_records in E. exact E.
-  - destruct (extract _) as [[buf recs]|]; [|discriminate]. cbn [bind fst snd].
-    destruct (handle_records _ _ _ _ _ _ _ _) as [c|] eqn:E; [|discriminate]. cbn [bind]. intros H; injection H as <-. cbn [rs_core].
-    apply grows_records in E. exact E.
+  - destruct (extract _) as [r|]; [|discriminate]. cbn [bind].
+    destruct (handle_records _ _ _ _ _ _ _) as [x|]; [|discriminate]. cbn [bind]. intros H; injection H as <-. cbn [rs_traffic]. eexists; reflexivity.
+  - destruct (extract _) as [r|]; [|discriminate]. cbn [bind].
+    destruct (handle_records _ _ _ _ _ _ _) as [x|]; [|discriminate]. cbn [bind]. intros H; injection H as <-. cbn [rs_traffic]. eexists; reflexivity.
 Qed.
 
-Lemma gtr_traffic ps : forall s s', gtr s ps = Ok s' -> prefix (ts_traffic (rs_core s)) (ts_traffic (rs_core s')).
+Lemma gtr_traffic ps : forall s s', gtr s ps = Ok s' -> prefix (rs_traffic s) (rs_traffic s').
 Proof.
   induction ps as [|p ps IH]; intros s s' H; cbn [get_tls_records] in H; [injection H as <-; apply prefix_refl|].
   destruct (feedp s p) as [s1|] eqn:E; [|discriminate]. cbn [bind] in H.
@@ -47,7 +44,7 @@ Proof. induction a as [|p a IH]; intros b s; cbn [app get_tls_records bind]; [re
 
 (* the records of a prefix of the buffered packets are handled first, and what they export stays *)
 Theorem session_prefix s ps1 ps2 s2 : gtr s (ps1 ++ ps2) = Ok s2 ->
-  exists s1, gtr s ps1 = Ok s1 /\ prefix (ts_traffic (rs_core s1)) (ts_traffic (rs_core s2)).
+  exists s1, gtr s ps1 = Ok s1 /\ prefix (rs_traffic s1) (rs_traffic s2).
 Proof.
   rewrite gtr_app. destruct (gtr s ps1) as [s1|]; [|discriminate]. cbn [bind]. intros H.
   exists s1. split; [reflexivity|]. eapply gtr_traffic. exact H.
@@ -102,15 +99,21 @@ Definition with_buffer (s : tsession) (ps : list packet) : tsession :=
      ts_client_ip := ts_client_ip s; ts_client_port := ts_client_port s; ts_client_mac := ts_client_mac s; ts_ipv6 := ts_ipv6 s;
      ts_packet_buffer := ps; ts_seen_server := ts_seen_server s; ts_seen_client := ts_seen_client s; ts_core := ts_core s |}.
 
+Lemma filter_prefix {A} (f : A -> bool) a b : prefix a b -> prefix (filter f a) (filter f b).
+Proof. intros [t ->]. rewrite filter_app. eexists; reflexivity. Qed.
+
 Theorem session_cut s ps1 ps2 segs2 :
   session_segments C suite_table suite_parts o keylog (with_buffer s (ps1 ++ ps2)) = Ok segs2 ->
   exists segs1, session_segments C suite_table suite_parts o keylog (with_buffer s ps1) = Ok segs1 /\ prefix segs1 segs2 /\
                 forall d, prefix (stream d segs1) (stream d segs2).
 Proof.
   unfold session_segments, session_traffic. cbn [with_buffer ts_server_ip ts_server_port ts_core ts_packet_buffer].
-  destruct (get_tls_records _ _ _ _ _ _ _ _ (ps1 ++ ps2)) as [c2|] eqn:E; [|discriminate]. cbn [bind].
-  destruct (session_prefix _ _ _ _ _ _ _ _ _ _ _ E) as (c1 & E1 & [t Ht]). rewrite E1. cbn [bind].
-  rewrite Ht. intros H. destruct (build_prefix _ _ _ H) as (o1 & Ho1 & Hp).
+  destruct (get_tls_records _ _ _ _ _ _ _ (ps1 ++ ps2)) as [c2|] eqn:E; [|discriminate]. cbn [bind].
+  destruct (session_prefix _ _ _ _ _ _ _ _ _ _ E) as (c1 & E1 & Hpre). rewrite E1. cbn [bind].
+  assert (Hp2: prefix (if opt_metadata o then rs_traffic c1 else filter (fun e => negb (te_meta e)) (rs_traffic c1))
+                      (if opt_metadata o then rs_traffic c2 else filter (fun e => negb (te_meta e)) (rs_traffic c2))).
+  { destruct (opt_metadata o); [exact Hpre|apply filter_prefix; exact Hpre]. }
+  destruct Hp2 as [t Ht]. rewrite Ht. intros H. destruct (build_prefix _ _ _ H) as (o1 & Ho1 & Hp).
   exists o1. split; [exact Ho1|]. split; [exact Hp|]. intros d. apply stream_prefix. exact Hp.
 Qed.
 End T.
